@@ -258,20 +258,6 @@ class Translator:
                 isinstance(e.comparators[0], ast.Constant) and e.comparators[0].value is None:
             pos = isinstance(e.ops[0], ast.Is)
             return self.expr(e.left, env, lambda v, en: k("(VBool (%sis_none %s))" % ("" if pos else "negb (", v) + ("" if pos else ")"), en))
-        if isinstance(e, ast.Compare) and len(e.ops) == 1 and isinstance(e.ops[0], (ast.Lt, ast.LtE, ast.Gt, ast.GtE)) and \
-                isinstance(e.comparators[0], ast.Constant) and isinstance(e.comparators[0].value, (int, float)) and \
-                not isinstance(e.comparators[0].value, bool) and e.comparators[0].value == 0:
-            # x < 0, x <= 0, x > 0, x >= 0 (argument validation): decided by the SIGN of the value (negative numbers carry
-            # negative tokens, zero is token 0); comparing None raises TypeError = a refusal like any other raise
-            op = {ast.Lt: "ltb", ast.LtE: "leb", ast.Gt: "gtb", ast.GtE: "geb"}[type(e.ops[0])]
-
-            def ks(v, en):
-                self.no_cls(v)
-                if en.get("dirty"):
-                    raise Untranslatable("comparison that may raise after an assignment on the same path (%s)" % en["dirty"])
-                sg = self.fresh("sg")
-                return "match vsign %s with None => None | Some %s => %s end" % (v, sg, k("(VBool (Z.%s %s 0))" % (op, sg), en))
-            return self.expr(e.left, env, ks)
         if isinstance(e, ast.Compare) and len(e.ops) == 1 and isinstance(e.ops[0], (ast.Eq,)):
             return self.expr(e.left, env, lambda a, en: self.expr(e.comparators[0], en, lambda b, en2: k(self.fold_eq(a, b), en2)))
         raise Untranslatable("expression %s" % ast.dump(e)[:100])
